@@ -275,7 +275,7 @@ func (eng *Engine) encodeFunction(fn *ssa.Function, fc *FuncContract, extra []*C
 	for pass := 1; pass <= 4; pass++ {
 		fe = &FuncEnc{eng: eng, fn: fn, fc: fc, pre: &Prelude{declSet: map[string]bool{}}, sorts: newSorts(),
 			heapSorts: map[string]Sort{}, heapStable: map[string]bool{}, protected: map[string]types.Type{}, opCount: map[string]int{},
-			assumedCallees: map[string]bool{}, inlinedCallees: map[string]bool{}, usedContracts: map[string]bool{}, pass: pass, seqLen: map[string]string{}, linked: map[string]bool{}}
+			assumedCallees: map[string]bool{}, inlinedCallees: map[string]bool{}, usedContracts: map[string]bool{}, pass: pass, seqLen: map[string]string{}, linked: map[string]bool{}, storeReach: map[string][]string{}}
 		for k, v := range universe {
 			fe.heapSorts[k] = v
 		}
@@ -532,7 +532,7 @@ func (eng *Engine) ifaceClausesFor(fn *ssa.Function) []*Clause {
 func (eng *Engine) encodeLemma(c *Clause, uses []string) *Oblig {
 	fe := &FuncEnc{eng: eng, pre: &Prelude{declSet: map[string]bool{}}, sorts: newSorts(),
 		heapSorts: map[string]Sort{}, heapStable: map[string]bool{}, protected: map[string]types.Type{}, opCount: map[string]int{},
-		assumedCallees: map[string]bool{}, inlinedCallees: map[string]bool{}, usedContracts: map[string]bool{}, seqLen: map[string]string{}, linked: map[string]bool{}}
+		assumedCallees: map[string]bool{}, inlinedCallees: map[string]bool{}, usedContracts: map[string]bool{}, seqLen: map[string]string{}, linked: map[string]bool{}, storeReach: map[string][]string{}}
 	fe.top = &Frame{fe: fe, vals: map[ssa.Value]Term{}, tuples: map[ssa.Value][]Term{}}
 	st := &State{heap: map[string]string{}, alive: "true"}
 	env := &Env{fe: fe, st: st, old: st, vars: map[string]Term{}, calleeMode: true}
